@@ -24,7 +24,7 @@ NAMES = ["nordicsemi.com", "nRF54H20_sample_root", "", "a", "é中\U0001f600", "
          "7d9f1e2a-4b3c-4d5e-8f60-a1b2c3d4e5f6", "7d9f1e2a4b3c4d5e8f60a1b2c3d4e5f6", "urn:uuid:7d9f1e2a-4b3c-4d5e-8f60-a1b2c3d4e5f6",
          "{7d9f1e2a-4b3c-4d5e-8f60-a1b2c3d4e5f6}", "6ba7b810-9dad-11d1-80b4-00c04fd430c8", "0x10", " padded ", "NordicSemi.com", "0", "None", "a\\b",
          # text that is not in Unicode normal form C is other text than its normalisation: decomposed accents, singletons (C13-q)
-         "mu\u0308ller.example", "\u212bngstro\u0308m-sensor", "10k\u2126", "\u212a-band", "e\u0301\u0301", "\ufb01rmware"]
+         "acme.example/iot", "ACME GmbH / Sensors", "a/b/c", "/lead", "trail/", "mu\u0308ller.example", "\u212bngstro\u0308m-sensor", "10k\u2126", "\u212a-band", "e\u0301\u0301", "\ufb01rmware"]
 
 
 SPECIAL_PAIRS = [(("acme\u2028.example", "cls"), ("acme.example", "c\u0085ls")), (("a\x0bb.example", "c\x0cd"), ("x\x1cy", "z\x1e")), (("acme.example", "cl\u2029s"), ("acme.example", "cl\x1ds")),
